@@ -2,6 +2,7 @@ import TsRsVerif.Model.Export
 import TsRsVerif.Lemmas.MergeLemmas
 import TsRsVerif.Lemmas.MergeText
 import TsRsVerif.Lemmas.ImportLine
+import TsRsVerif.Lemmas.HistoryWorld
 /-!
 # C05 — several types in one file: order-independent, idempotent, lossless merge
 
@@ -12,9 +13,13 @@ The theorems below are about the middle part — the very functions `merge` is c
 and whose declaration blocks are well-formed (`BlockOK`: no blank line inside, no line break at the ends, the name is
 read back from the text), `merge(file, new)` is the import block followed by the blocks with the new one inserted in
 name order; `C05_merge_text_full` discharges the parsing of the header as well (`parse_render_line`: an import line is
-read back, for any path and any list of names). What is NOT proven in Lean (checked on every case of every run by the
-driver): the commutation of the import map (`addLine`) under permutation of the exports; it is exercised by the history
-stream, whose oracle compares the real file with `canonFile` for every order. The two open findings of C05 are exactly
+read back, for any path and any list of names). `C05_history_canonical` closes the loop over whole histories (refinement to the abstract content `canonSt`): any sequence
+of exports of well-formed texts with distinct names into one path of a process that has not written it yet succeeds step
+by step and leaves exactly `fileText (canonSt exports)` there — the seek-and-write without truncation leaves nothing of
+the old file behind because import block and declaration list only grow (`Lemmas/ByteLen.lean`) — and `canonSt` does not
+depend on the order (`C05_canon_order_independent`: the import map is a function of the SET of import lines,
+`Lemmas/ImportsCanon.lean`). `C05_oracle_is_canonical`: the `canonFile` oracle the check computes from the real generated
+texts is that same text. The two open findings of C05 are exactly
 the two ways to violate `BlockOK`; proving `parse_render_line` exposed a third defect (a type called `from`, fixed in
 cc8d787).
 -/
@@ -25,23 +30,8 @@ open Text Merge Export
 the loop of export.rs:259-290 run with `inserted = false` yields exactly the declarations of
 `insertByName`, provided the new name is not yet in the file (the registry guarantees that). -/
 theorem C05_loop_is_sorted_insert (n d : Str) (ds : List (Str × Str)) (hn : ∀ x ∈ ds, x.1 ≠ n) :
-    insertLoop n d false ds = (insertByName n d ds).map (·.2) := by
-  induction ds with
-  | nil => simp [insertLoop, insertByName]
-  | cons x xs ih =>
-    obtain ⟨m, e⟩ := x
-    have hm : m ≠ n := hn (m, e) (by simp)
-    have ih' := ih (fun y hy => hn y (by simp [hy]))
-    simp only [insertLoop, insertByName, Bool.false_or]
-    by_cases hlt : ltStr m n = true
-    · have h2 : ltStr n m = false := ltStr_asymm hlt
-      have h3 : ¬ n = m := fun h => hm h.symm
-      simp [hlt, h2, h3, ih']
-    · have h2 : ltStr n m = true := by
-        rcases ltStr_total hm with h | h
-        · exact absurd h hlt
-        · exact h
-      simp [hlt, h2, insertLoop_true]
+    insertLoop n d false ds = (insertByName n d ds).map (·.2) :=
+  loop_is_sorted_insert n d ds hn
 
 /-- **the text-level merge is sorted insertion into the blocks of the file** (any number of blocks, any texts) -/
 theorem C05_merge_text (hdrO hdrN : Str) (blocks : List (Str × Str)) (n d : Str) (parsed : List (Str × List Str))
@@ -51,15 +41,6 @@ theorem C05_merge_text (hdrO hdrN : Str) (blocks : List (Str × Str)) (n d : Str
     merge (hdrO ++ '\n' :: '\n' :: declsText (blocks.map (·.2))) (hdrN ++ '\n' :: '\n' :: (d ++ ['\n']))
       = .ok (renderImports (parsed.foldl addLine []) ++ renderDecls ((insertByName n d blocks).map (·.2))) := by
   rw [merge_text hdrO hdrN blocks n d parsed hO hN hne hb hnew himp, C05_loop_is_sorted_insert n d blocks hfresh]
-
-theorem mapM_parse_lines : ∀ (imps : List (Str × List Str)),
-    (∀ x ∈ imps, PathOK x.1 ∧ x.2 ≠ [] ∧ ∀ t ∈ x.2, NameOK t) →
-    (imps.map fun x => renderLine x.1 x.2).mapM parseImportLine = some imps
-  | [], _ => by simp
-  | x :: xs, h => by
-    obtain ⟨h1, h2, h3⟩ := h x (by simp)
-    have ih := mapM_parse_lines xs (fun y hy => h y (by simp [hy]))
-    simp only [List.map_cons, List.mapM_cons, parse_render_line x.1 x.2 h1 h2 h3, ih, bind, Option.bind, pure]
 
 /-- **the whole text-level merge**, with nothing assumed about parsing: a file made of the notice line, import lines
 (one per specifier: any path not starting / ending with a quote, any non-empty list of names without `{`, `}`, `,`) and
@@ -72,22 +53,8 @@ theorem C05_merge_text_full (note : Str) (impO impN : List (Str × List Str)) (b
     (hne : blocks ≠ []) (hb : ∀ b ∈ blocks, BlockOK b.1 b.2) (hnew : BlockOK n d) (hfresh : ∀ x ∈ blocks, x.1 ≠ n) :
     merge (header note (impO.map fun x => renderLine x.1 x.2) ++ '\n' :: '\n' :: declsText (blocks.map (·.2)))
           (header note (impN.map fun x => renderLine x.1 x.2) ++ '\n' :: '\n' :: (d ++ ['\n']))
-      = .ok (renderImports ((impO ++ impN).foldl addLine []) ++ renderDecls ((insertByName n d blocks).map (·.2))) := by
-  have hlO' : ∀ l ∈ impO.map (fun x => renderLine x.1 x.2), LineOK l := by
-    intro l hl; obtain ⟨x, hx, rfl⟩ := List.mem_map.mp hl; exact hlO x hx
-  have hlN' : ∀ l ∈ impN.map (fun x => renderLine x.1 x.2), LineOK l := by
-    intro l hl; obtain ⟨x, hx, rfl⟩ := List.mem_map.mp hl; exact hlN x hx
-  have pO := header_props note _ hnote hlO'
-  have pN := header_props note _ hnote hlN'
-  refine C05_merge_text _ _ blocks n d (impO ++ impN) ⟨pO.1, pO.2.1⟩ ⟨pN.1, pN.2.1⟩ hne hb hnew hfresh ?_
-  rw [lines_header note _ hnote hlO', lines_header note _ hnote hlN']
-  simp only [List.drop_succ_cons, List.drop_zero]
-  rw [← List.map_append]
-  exact mapM_parse_lines (impO ++ impN) (by
-    intro x hx
-    rcases List.mem_append.mp hx with h | h
-    · exact hO x h
-    · exact hN x h)
+      = .ok (renderImports ((impO ++ impN).foldl addLine []) ++ renderDecls ((insertByName n d blocks).map (·.2))) :=
+  merge_text_full note impO impN blocks n d hnote hO hN hlO hlN hne hb hnew hfresh
 
 /-- … and the merged text has again the shape the theorem asks of its input (so it applies to every later merge) -/
 theorem C05_merged_shape (ds : List Str) : renderDecls ds = (ds.map fun d => ['\n'] ++ d ++ ['\n']).flatten := rfl
@@ -172,6 +139,76 @@ example : merge
   decide +kernel
 
 /-! ## why `WFBlock` is needed: counter-examples of the unchanged tree (known findings) -/
+
+/-- **refinement to the abstract content, for whole histories** (any number of exports, any well-formed texts): in a
+process that has not written `path` yet, exporting `g :: gs` (distinct identifiers, distinct declared names — a generic type's
+declared name is `Name<T, ..>`, its identifier `Name`) one after the other returns `Ok` every time
+and ends with: the file system is the initial one with exactly `fileText (canonSt (g :: gs))` at the file's location
+(nothing else touched, nothing of intermediate contents left behind), the registry lists exactly the exported names, the
+lock is not poisoned. -/
+theorem C05_history_canonical (w : World) (path : Str) (g : GenT) (gs : List GenT)
+    (hok : ∀ x ∈ g :: gs, GenOK x) (hnd : ((g :: gs).map (·.name)).Nodup) (hndI : ((g :: gs).map (·.ident)).Nodup)
+    (hp : w.poisoned = false) (hreg : regGet w.reg (regKey path) = none)
+    (hc : (w.fs.fileCreate path (genText g)).isSome) :
+    ∃ w' loc, runAll path w (g :: gs) = (w', true) ∧ w'.poisoned = false ∧ w.fs.resolve path = some loc ∧
+      w'.fs = w.fs.set loc (.file (fileText (canonSt (g :: gs)))) ∧
+      ∃ names, regGet w'.reg (regKey path) = some names ∧ ∀ n, n ∈ names ↔ n ∈ (g :: gs).map (·.ident) := by
+  obtain ⟨w', loc, hr, h1, _, h3, _, h5, h6⟩ := history_canonical w path g gs hok hnd hndI hp hreg hc
+  exact ⟨w', loc, hr, h1, h3, h5, h6⟩
+
+/-- **lossless**: the canonical content holds the block of every export, each exactly once, in name order -/
+theorem C05_canon_lossless (gens : List GenT) (hnd : (gens.map (·.name)).Nodup) :
+    ((canonSt gens).blocks).Perm (gens.map fun g => (g.name, g.decl)) ∧ SortedN (canonSt gens).blocks := by
+  have e : (canonSt gens).blocks = insertAll (gens.map fun g => (g.name, g.decl)) := by
+    simp only [canonSt, insertAll, List.foldl_map]
+  rw [e]
+  have hnd' : ((gens.map fun g => (g.name, g.decl)).map (·.1)).Nodup := by rw [List.map_map]; exact hnd
+  refine ⟨?_, foldl_insert_sorted _ [] (by simp [SortedN])⟩
+  have := foldl_insert_perm (gens.map fun g => (g.name, g.decl)) [] hnd' (by simp)
+  simp only [List.append_nil] at this
+  exact this.trans (List.reverse_perm _)
+
+/-- **order independence of the abstract content** — import map AND blocks, for every permutation of the exports -/
+theorem C05_canon_order_independent (g₁ g₂ : List GenT) (hp : g₁.Perm g₂) (hnd : (g₁.map (·.name)).Nodup) :
+    canonSt g₁ = canonSt g₂ := canonSt_perm g₁ g₂ hp hnd
+
+/-- the import map is a function of the SET of import lines: invariant under permutation, and re-reading an already
+merged block changes nothing -/
+theorem C05_imports_perm (ls₁ ls₂ : List (Str × List Str)) (h : ls₁.Perm ls₂) :
+    ls₁.foldl addLine [] = ls₂.foldl addLine [] := foldl_addLine_perm h
+
+/-- **the oracle is the theorem's canonical file**: what the check computes from the real generated texts
+(`canonFile`, compared with the real file after every history) is `fileText (canonSt ..)` -/
+theorem C05_oracle_is_canonical (gens : List GenT) (hne : gens ≠ []) (hok : ∀ x ∈ gens, GenOK x) :
+    canonFile (gens.map fun g => (g.name, genText g)) = some (fileText (canonSt gens)) := canonFile_eq gens hne hok
+
+/-- seek-and-write leaves nothing behind: the merged text is never shorter than what it overwrites -/
+theorem C05_write_leaves_nothing (s : FileSt) (g : GenT) (hs : StOK s) :
+    Fs.writeAt (fileText s) (Fs.byteLen NOTE) (renderImports (s.add g).imps ++ renderDecls ((s.add g).blocks.map (·.2)))
+      = fileText (s.add g) := write_step s g hs
+
+/-! non-vacuity: two concrete generated texts (one with an import line) satisfy `GenOK`, and a concrete world satisfies the
+premises of `C05_history_canonical` -/
+def exG1 : GenT := ⟨"Beta".toList, "Beta".toList, [("./Dep".toList, ["Dep".toList, "Other".toList])], "/**\n * doc\n */\nexport type Beta = { d: Dep, o: Other, };".toList⟩
+def exG2 : GenT := ⟨"Alpha".toList, "Alpha<T>".toList, [], "export type Alpha<T> = { a: T, };".toList⟩
+def exW : World := { fs := { nodes := [(["w".toList], .dir), (["w".toList, "out".toList], .dir)], cwd := ["w".toList] }, reg := [] }
+
+example : GenOK exG1 := by
+  refine ⟨⟨⟨by decide +kernel, by intro e he; simp only [exG1, List.mem_singleton] at he; subst he; unfold SortedS; decide +kernel⟩, ?_⟩, ⟨by decide +kernel, by decide +kernel, by decide +kernel, by decide +kernel, by decide +kernel⟩⟩
+  intro x hx
+  simp only [exG1, List.mem_singleton] at hx
+  subst hx
+  refine ⟨⟨by decide +kernel, by decide +kernel, by decide +kernel, by decide +kernel⟩, by decide +kernel, by decide +kernel, ?_⟩
+  intro t ht
+  simp only [List.mem_cons, List.not_mem_nil, or_false] at ht
+  rcases ht with rfl | rfl <;> exact ⟨⟨by decide +kernel, by decide +kernel, by decide +kernel⟩, by decide +kernel⟩
+example : GenOK exG2 := by
+  refine ⟨⟨⟨by decide +kernel, by intro e he; simp [exG2] at he⟩, by intro x hx; simp [exG2] at hx⟩, ⟨by decide +kernel, by decide +kernel, by decide +kernel, by decide +kernel, by decide +kernel⟩⟩
+example : exW.poisoned = false ∧ regGet exW.reg (regKey "out/shared.ts".toList) = none ∧
+    (exW.fs.fileCreate "out/shared.ts".toList (genText exG1)).isSome = true := by
+  refine ⟨rfl, rfl, by decide +kernel⟩
+#guard (runAll "out/shared.ts".toList exW [exG1, exG2]).2 &&
+  (((runAll "out/shared.ts".toList exW [exG1, exG2]).1.fs.openRead "out/shared.ts".toList).map (·.2) == some (fileText (canonSt [exG2, exG1])))
 
 /-- a blank line inside a block splits it: the merged body has THREE declarations for two types -/
 theorem C05_cex_blank_line :
